@@ -666,9 +666,52 @@ fn primesieve_case(iters: u64) {
     }
 }
 
+
+/// arith::inv_mod64 and arith_montgomery::mg_inv over the whole 64-bit range (F14: operands above 2^63)
+fn invmod64_case(rng: &mut Rng, iters: u64) {
+    use yamaquasi::arith::inv_mod64;
+    use yamaquasi::arith_montgomery::{mg_2adic_inv, mg_inv, mg_mul};
+    fn gcd(a: u64, b: u64) -> u64 { if b == 0 { a } else { gcd(b, a % b) } }
+    for it in 0..iters.min(200000) {
+        let mut p = match it % 4 { 0 => rng.word() | (1 << 63), 1 => u64::MAX - rng.next() % 64, 2 => (rng.word() >> (rng.next() % 60)).max(1), _ => rng.word().max(1) };
+        let mut n = match it % 3 { 0 => rng.word(), 1 => rng.word() % p, _ => rng.word() | (1 << 63) };
+        if it == 0 { p = u64::MAX - 58; n = 5; }
+        match catch_unwind(|| inv_mod64(n, p)) {
+            Err(_) => fail("invmod64", format!("inv_mod64({n}, {p}): panic")),
+            Ok(Some(x)) => {
+                if x >= p || (x as u128 * n as u128) % p as u128 != 1 % p as u128 {
+                    fail("invmod64", format!("inv_mod64({n}, {p}) = {x}: {x} * {n} mod {p} = {}, expected 1", (x as u128 * n as u128) % p as u128));
+                }
+            }
+            Ok(None) => {
+                if gcd(n, p) == 1 { fail("invmod64", format!("inv_mod64({n}, {p}) = None although gcd = 1")); }
+            }
+        }
+        // mg_inv on an odd modulus
+        let m = p | 1;
+        if m < 3 { continue; }
+        let ninv = mg_2adic_inv(m);
+        let r1 = ((1u128 << 64) % m as u128) as u64;
+        let r2 = ((r1 as u128 * r1 as u128) % m as u128) as u64;
+        let x = n % m;
+        match catch_unwind(|| mg_inv(m, ninv, r2, x)) {
+            Err(_) => fail("invmod64", format!("mg_inv({m}, {ninv}, {r2}, {x}): panic")),
+            Ok(Some(y)) => {
+                if y >= m || mg_mul(m, ninv, y, x) != r1 {
+                    fail("invmod64", format!("mg_inv({m}, {ninv}, {r2}, {x}) = {y}: Montgomery product with x is {}, expected R mod n = {r1}", mg_mul(m, ninv, y, x)));
+                }
+            }
+            Ok(None) => {
+                if gcd(x, m) == 1 { fail("invmod64", format!("mg_inv({m}, {ninv}, {r2}, {x}) = None although gcd(x, n) = 1")); }
+            }
+        }
+    }
+}
+
 pub fn run(case: &str, rng: &mut Rng, iters: u64) -> bool {
     match case {
         "pp1" => pp1_case(),
+        "invmod64" => invmod64_case(rng, iters),
         "primesieve" => primesieve_case(iters),
         "factorapi" => factorapi(rng, iters),
         "rhofail" => rhofail(rng, iters),
